@@ -23,6 +23,14 @@ def _wf_prog(item):
             continue
         optab = optable(text, [d["code"] for d in subs.values()])
         probs = wf.check_body(c[1], optab, corpus_run.sub_sigs(fmt))
+        # companion record as the compiler builds it for an instruction part
+        from rzilcompiler.Compiler import RZILInstruction
+        ins = RZILInstruction("vf_prog", [c[1]], [c[2]], [""])
+        ids = corpus_run.code_identifiers(c[1])
+        if "hi" in ids and not ins.needs_hi[0]:
+            probs.append(("c11:needs-hi", "text mentions hi but needs_hi is false"))
+        if "pkt" in ids and not ins.needs_pkt[0]:
+            probs.append(("c11:needs-pkt", "text mentions pkt but needs_pkt is false"))
         out.append(dict(key=f"prog:{text}", fmt=fmt, verdict="ok", problems=probs, il=c[1] if probs else "", c=text))
     return out
 
